@@ -87,7 +87,7 @@ def q_from_float(F):
 
 
 _SPARSE_COUNTER = [0]
-SPARSE_VARIANTS = ("csr", "csc", "duplicate-slots", "explicit-zeros", "unsorted-indices", "narrow-dtype", "coo")
+SPARSE_VARIANTS = ("csr", "csc", "duplicate-slots", "explicit-zeros", "unsorted-indices", "narrow-dtype", "coo", "shared-plane-objects")
 
 
 def sp_plane(P, variant):
@@ -136,6 +136,15 @@ def sp_quat(F, variant=None):
             _SPARSE_COUNTER[0] += 1
             variant = SPARSE_VARIANTS[_SPARSE_COUNTER[0] % len(SPARSE_VARIANTS)]
     F = np.asarray(F, dtype=np.float64)
+    if variant == "shared-plane-objects":
+        # planes with equal values are ONE scipy object passed several times (a shared zero plane, a shared pattern)
+        objs, planes = {}, []
+        for c in range(4):
+            key = F[..., c].tobytes()
+            if key not in objs:
+                objs[key] = sp_plane(F[..., c], "csr")
+            planes.append(objs[key])
+        return lib().utils.SparseQuaternionMatrix(*planes, F.shape[:2])
     return lib().utils.SparseQuaternionMatrix(*[sp_plane(F[..., c], variant) for c in range(4)], F.shape[:2])
 
 
